@@ -294,7 +294,12 @@ impl<P: Pid> ConnBox<P> {
         on!(self, c => c.get_protocol_version())
     }
     pub fn snap(&self) -> VerifState {
-        on!(self, c => c.verif_state())
+        let mut s = on!(self, c => c.verif_state());
+        // bookkeeping that is dead once the attempt is established (it is overwritten at the next close)
+        if s.established {
+            s.need_store_before_connect = false;
+        }
+        s
     }
 }
 
